@@ -13,7 +13,7 @@ META = {
     "that period, then one axis per unrestricted discrete state, then one per continuous state, each of grid length. Utilities are "
     "separating (a free table entry per discrete combination, a distinct free coefficient per continuous variable), so any "
     "transposed, reordered or mis-ranked axis makes an obligation satisfiable.",
-    "bounds": "templates TB, TC, TD, TE, TG, TJ (a restricted state without any passing choice), TM (restricted + unrestricted discrete + "
+    "bounds": "templates TB, TC, TD, TE, TG, TK (two stochastic states), TJ (a restricted state without any passing choice), TM (restricted + unrestricted discrete + "
     "continuous state), TN (two restricted states with an excluded combination, two unrestricted discrete states of different "
     "size), TF (period-dependent filter: the first axis changes with the period); quick: 6 declaration orders per template, "
     "thorough: all orders of states and choices x 3 function orders; T=2 (TF: 3)",
@@ -32,6 +32,8 @@ BASES = [
     ("TM", dict(T=2)),
     ("TN", dict(T=2)),
     ("TF", dict(T=3)),
+    ("TP", dict(T=2)),  # first axis differs between periods
+    ("TK", dict(T=2)),  # two stochastic states: order of the next_* functions vs order of the states
 ]
 
 
